@@ -21,7 +21,7 @@ func init() { register("C05", runC05) }
 func runC05(c *Ctx, tier string) {
 	r := NewReport("C05", "other", tier, c)
 	r.Explanation = "Necessary structural conditions for determinism, history independence, read-only and I/O-free linting, decided for every lint and helper in the tree: (1) no-global-write: interprocedural MOD summaries (SSA address roots through field/index/slice/load/phi/conversion/call edges of the VTA call graph) show that no CheckApplies/Execute/Configure of any registered lint, nor the Lint*Ex entry points, may write a package-level variable of the module; functions of lint/util/lints packages that write module globals directly must be init functions or the registration API. (2) object-read-only: the same summaries show no lint method writes memory reachable from the linted object (writes to unexported fields made by the object's own package — zcrypto's memoisation — excepted); append to a certificate slice whose result is only read is accepted, element stores / sort / copy into it are not. (3) fresh-instance: every registered constructor returns a new allocation. (4) map-order: every range over a map in code reachable from lint methods is order-insensitive by a recognised form (collect then sort before any order-sensitive use; commutative accumulation / constant stores; uniform early exit) — anything else is a violation. (5) api-policy: every use (types.Info.Uses) in packages zlint, lint, util, lints/* of an object from os, os/exec, os/signal, os/user, syscall, net/http, io/ioutil, io/fs, path/filepath, log, math/rand*, crypto/rand, runtime, unsafe, plugin, net beyond the pure address API, time.Now/Since/Until/Sleep/After/Tick/NewTimer/NewTicker/AfterFunc/LoadLocation/Local, fmt.Print*/Scan*, reflect.Value.Set*, plus go statements, select and channel operations, must be in the who-may-use table (configuration loader, Lint*Ex timestamp, the two AIA internal-name lints' time.Now, the configuration resolver's reflect.Set); imports outside the reviewed list and new modules in go.mod are flagged for classification. Does not decide determinism of trusted libraries nor writes made through reflect/unsafe."
-	r.Rule("no-global-write; object-read-only; fresh-instance; map-order; api-policy; imports-reviewed")
+	r.Rule("no-global-write; object-read-only; fresh-instance; map-order; api-policy; imports-reviewed; clock-only-compared; configure-returns-receiver")
 	r.Trusted = []string{"go/ssa, VTA call graph (x/tools v0.29.0)", "reviewed table of body-less (assembly) callees", "zcrypto, x/crypto, x/net/idna, x/text, go-toml, publicsuffix-go perform no I/O (reviewed once)"}
 	r.Assumptions = []string{"writes through reflect or unsafe are not modelled (reflect.Value.Set* is policed at use sites)", "aliasing is approximated by SSA address roots: a pointer stored into a heap structure built by library code is attributed by the callee's MOD summary only"}
 
@@ -34,6 +34,11 @@ func runC05(c *Ctx, tier string) {
 	freshInstances(c, r, cs)
 	c05MapOrder(c, r, cs, e)
 	c05API(c, r)
+	// options are stored per instance: every Configure() hands out memory inside the
+	// fresh instance (or set by its constructor to memory allocated for it), never a
+	// structure shared between instances, runs or registries (C11's rule)
+	c11Configurables(c, r, BuildCensus(c))
+	clockOnlyCompared(c, r)
 	r.Finish()
 }
 
@@ -1004,4 +1009,82 @@ func c05API(c *Ctx, r *Report) {
 	for _, m := range re.FindAllStringSubmatch(string(data), -1) {
 		r.Check(reviewedModules[m[1]], "imports-reviewed", "module|"+m[1], 0, "reviewed", "go.mod requires module "+m[1]+" which has not been reviewed for I/O and nondeterminism")
 	}
+}
+
+// clockOnlyCompared: the two AIA internal-name lints may read the clock (the
+// property names them), but only to ask the TLD table "delegated today?": the
+// time.Now() value may flow, through module functions, only into the instant
+// comparisons of time.Time. Formatting it, boxing it into an interface (fmt
+// arguments, error texts), taking calendar fields, or storing it makes Details —
+// or the verdict — differ between two runs on the same day.
+func clockOnlyCompared(c *Ctx, r *Report) {
+	compare := map[string]bool{"Before": true, "After": true, "Equal": true, "Compare": true, "IsZero": true}
+	n := 0
+	for _, f := range modFunctions(c) {
+		if !strings.HasPrefix(relPkg(fnPkgPath(f)), "lints/") {
+			continue
+		}
+		allInstrs(f, func(in ssa.Instruction) {
+			call, ok := in.(*ssa.Call)
+			if !ok || staticCalleeName(&call.Call) != "time.Now" {
+				return
+			}
+			n++
+			seen := map[ssa.Value]bool{}
+			bad := ""
+			var follow func(v ssa.Value, where *ssa.Function, depth int)
+			follow = func(v ssa.Value, where *ssa.Function, depth int) {
+				if seen[v] || bad != "" || v.Referrers() == nil {
+					return
+				}
+				seen[v] = true
+				if depth > 6 {
+					bad = "the clock value is handed on through more than six calls"
+					return
+				}
+				for _, ref := range *v.Referrers() {
+					switch x := ref.(type) {
+					case *ssa.DebugRef:
+					case *ssa.Phi:
+						follow(x, where, depth)
+					case *ssa.Store:
+						// a local cell (the value was spilled): follow what is loaded from it
+						if a, isAlloc := x.Addr.(*ssa.Alloc); isAlloc && x.Val == v && !a.Heap {
+							for _, r2 := range *a.Referrers() {
+								if ld, isLd := r2.(*ssa.UnOp); isLd && ld.Op == token.MUL {
+									follow(ld, where, depth)
+								}
+							}
+						} else if x.Val == v {
+							bad = "the clock value is stored into " + apath(x.Addr) + " in " + fname(where)
+						}
+					case ssa.CallInstruction:
+						cc := x.Common()
+						g := cc.StaticCallee()
+						switch {
+						case g != nil && g.Signature.Recv() != nil && fnPkgPath(g) == "time" && compare[g.Name()]:
+						case g != nil && isModFunc(g) && len(g.Blocks) > 0:
+							for i, a := range cc.Args {
+								if a == v && i < len(g.Params) {
+									follow(g.Params[i], g, depth+1)
+								}
+							}
+						default:
+							name := staticCalleeName(cc)
+							if name == "" {
+								name = "a dynamic call"
+							}
+							bad = "the clock value is passed to " + name + " in " + fname(where) + " (" + c.Pos(x.Pos()) + ")"
+						}
+					default:
+						bad = fmt.Sprintf("the clock value is used by %T in %s (%s)", ref, fname(where), c.Pos(ref.Pos()))
+					}
+				}
+			}
+			follow(call, f, 0)
+			r.Check(bad == "", "clock-only-compared", ssaWhere(f)+"|time.Now", call.Pos(), "flows only into instant comparisons (via module helpers)",
+				"the wall-clock value read in "+ssaWhere(f)+" must only be compared with table dates; "+bad+": the result then differs between repetitions on the same day")
+		})
+	}
+	r.Floor("clock reads in lint packages followed", 2, n)
 }
